@@ -212,3 +212,42 @@ func VP_C07_CancelMMOrderCancelsEveryIndexedOrder() {
 	_, still := k.GetMMOrderIndex(ctx, orderer, appID, pairID)
 	zzvp.Assert(!still, "mm-index-cleared")
 }
+
+// C07 (market-making orders, index with a pruned entry): an order of the owner's index that was completely filled has
+// been deleted from the store by the time the owner cancels; the live order listed next to it - before or after the
+// pruned id - is still cancelled and refunded, and the index is cleared.
+func VP_C07_CancelMMOrderSkipsPrunedOrders() {
+	appID, pairID := zzvp.AnyUint64(), zzvp.AnyUint64()
+	ordererStr := zzvp.AnyString()
+	orderer, errO := sdk.AccAddressFromBech32(ordererStr)
+	zzvp.Assume(errO == nil)
+	w := vpPairWorld(appID, pairID, orderer)
+	k, ctx := w.k, w.ctx
+	id, gone := zzvp.AnyUint64(), zzvp.AnyUint64()
+	zzvp.Assume(id != gone)
+	o := vpLiveOrder(appID, pairID, id, true)
+	o.Orderer = ordererStr
+	zzvp.Assume(o.BatchId != w.pair.CurrentBatchId)
+	zzvp.Assume(o.RemainingOfferCoin.Denom == w.pair.QuoteCoinDenom)
+	k.SetOrder(ctx, appID, o)
+	_, foundGone := k.GetOrder(ctx, appID, pairID, gone)
+	zzvp.Assume(!foundGone)
+	ids := []uint64{gone, id}
+	if zzvp.Choose(2) == 1 {
+		ids = []uint64{id, gone}
+	}
+	k.SetMMOrderIndex(ctx, appID, types.MMOrderIndex{Orderer: ordererStr, AppId: appID, PairId: pairID, OrderIds: ids})
+	msg := types.NewMsgCancelMMOrder(appID, orderer, pairID)
+	zzvp.Assume(msg.ValidateBasic() == nil)
+	zzvp.Mark()
+	_, err := k.CancelMMOrder(ctx, msg)
+	if err != nil {
+		return
+	}
+	zzvp.Reach("cancel-mm-succeeded")
+	post, found := k.GetOrder(ctx, appID, pairID, id)
+	zzvp.Assert(zzvp.And(found, post.Status == types.OrderStatusCanceled), "live-mm-order-next-to-a-pruned-one-cancelled")
+	zzvp.Assert(zzvp.ZI(zzvp.BalanceDelta(orderer, w.pair.QuoteCoinDenom)).Equal(zzvp.ZI(o.RemainingOfferCoin.Amount)), "live-mm-order-next-to-a-pruned-one-refunded")
+	_, still := k.GetMMOrderIndex(ctx, orderer, appID, pairID)
+	zzvp.Assert(!still, "mm-index-cleared")
+}
